@@ -65,7 +65,7 @@ CHECKS["C02"] = dict(
     design_ref="DESIGN.md §6 C02, §11, §12, §13, notes/NOTES-p0102.md, notes/NOTES-C02FE.md, notes/NOTES-GENOPS.md, notes/NOTES-C02R3.md",
     note=(TRUST + ", extract/sigs.py, extract/optypes.py (its reading of the source is tied to the compiled code by the gen-* "
           "families; a semantically neutral rewrite of the source can break the tie without a failing input — it did once, on our "
-          "own repair 443d77e). Still hand-transcribed: typeChecking / assertTypeUniform, the collection branch of member arguments, "
+          "own repair 565b1e8). Still hand-transcribed: typeChecking / assertTypeUniform, the collection branch of member arguments, "
           "set@, complex. The flag machine is driven by event traces the generator knows by construction, not derived from the "
           "interpreter model's own run. The full statement is FALSE on this tree: 20 recorded findings by operator / built-in cell "
           "(the 5 operator ones with a decidable region, the 15 built-in ones per built-in), C02.safety_table_major_changes, "
@@ -414,7 +414,7 @@ CHECKS["C15"] = dict(
           "ASan+UBSan+LSan, every result, out-parameter, re-read pointer and errno/strerror compared; assign-then-read, failing "
           "FUNCTION declarations; op_family (300 cases: 1760 rejected + 630 accepted operator parses through both entry points, each "
           "rejected one followed by a good parse + run in the same context): all verdicts, codes and positions of the typing model "
-          "agree with the library (positions follow repair 443d77e: a left operand ill-typed on its own is reported before the "
+          "agree with the library (positions follow repair 565b1e8: a left operand ill-typed on its own is reported before the "
           "right one is parsed). ~4.9k sequences."),
     design_ref="DESIGN.md §6 C15, §11, §12.3, §13, notes/NOTES-C15.md, notes/NOTES-r15.md, notes/NOTES-C15R3.md, notes/NOTES-C15R4.md",
     note=("PARTIAL. Memory reclamation is NOT modelled: 'a rejected parse leaves nothing allocated' / 'no memory remains' is "
@@ -424,7 +424,7 @@ CHECKS["C15"] = dict(
           "item pointers dangle after store, use-after-free when an executable/clone holding a function outlives the declaring "
           "context's purge/free, leak of the wrapper node at end of text after a member call — needs an ownership hand-over); "
           "repaired: the two accessor null dereferences, the callee-context leak, and this round the left-operand leak pattern of "
-          "the 17 binary productions (443d77e), the IF condition (d070b9e), RETURN at end of text (c0de6cd); 1 candidate recorded by "
+          "the 17 binary productions (565b1e8), the IF condition (96b2071), RETURN at end of text (4ec8435); 1 candidate recorded by "
           "C14's index-linking model and not exercised here. The 10 accepted `matches` texts have no AST and are skipped; a value "
           "loaded from one context cannot be stored into another in the model (two-context copy/move family not built). bloc_break "
           "from a second thread, trace and plugins are outside. " + TRUST + "."),
